@@ -240,7 +240,8 @@ pub fn make_input(c: &Case, dict: &[u8]) -> Vec<u8> {
         2 => { let o = rng.below(60) as usize; let l = rng.range(30, (TEXT.len() - o) as u64) as usize; v.extend_from_slice(&TEXT[o..o + l]); if rng.chance(1, 2) { sub(&mut rng, &mut v); v.extend_from_slice(&TEXT[..50]); } }
         3 => { let n = rng.below(4) as usize; for i in 0..n { v.push(if d > i { dict[d - 1 - i] } else { rng.next() as u8 }); } }
         _ => { // long: > ring buffer (q<=3: 2^(1+max(lgwin,14)), else 2^(1+max(lgwin,16..18)))
-            let target = if c.q < 4 { (1usize << (1 + c.lgwin.max(14))) + 5000 } else { (1usize << (1 + c.lgwin.max(16))) + 70000 };
+            let lw = c.lgwin.clamp(10, 24);
+            let target = if c.q < 4 { (1usize << (1 + lw.max(14))) + 5000 } else { (1usize << (1 + lw.max(16))) + 70000 };
             while v.len() < target {
                 match rng.below(5) {
                     0 => v.extend_from_slice(TEXT),
@@ -275,12 +276,13 @@ fn run_case(c: &Case, rep: &mut Report) {
     rep.count(&format!("quality.{}", c.q));
     if c.magic { rep.count("magic"); }
     let unsanitised = c.lgwin < 10 || c.lgwin > 24;
+    if unsanitised { rep.count("clamped_lgwin"); }
     let out = match enc {
         Ok(o) => o,
         Err(e) => {
             let kind = if e.starts_with("panic") { "encode-panic" } else if e == "livelock" { "encode-livelock" } else { "encode-fail" };
-            if unsanitised { rep.count("extra.unsanitised_lgwin.encode_fail"); return; }
-            rep.violation(&format!("dict:{}:{}:{}", kind, dcl, qcl), &format!("encoder with a {}-byte dictionary: {}", c.d, e), c.json());
+            let sig = if unsanitised { format!("dict:{}:clamped-lgwin", kind) } else { format!("dict:{}:{}:{}", kind, dcl, qcl) };
+            rep.violation(&sig, &format!("encoder with a {}-byte dictionary: {}", c.d, e), c.json());
             return;
         }
     };
@@ -297,14 +299,13 @@ fn run_case(c: &Case, rep: &mut Report) {
         if input.len() > (1usize << c.lgwin.clamp(10, 24)) { rep.count("input_longer_than_window"); }
         return;
     }
-    if unsanitised { rep.count("extra.unsanitised_lgwin.mismatch"); return; }
     let (kind, what) = match &dr {
         DResult::Ok(v) => ("wrong-decode", format!("decoder given the same {}-byte dictionary returned {} bytes != input ({} bytes), first difference at {}", c.d, v.len(), input.len(), crate::dec::first_diff(v, &input))),
         DResult::Error(v) => ("decode-error", format!("decoder given the same {}-byte dictionary failed after {} bytes", c.d, v.len())),
         DResult::NeedsMoreInput(v) => ("decode-truncated", format!("decoder given the same {}-byte dictionary wants more input after {} bytes", c.d, v.len())),
         DResult::TooBig => ("decode-toobig", "decoder output exceeds the input length".to_string()),
     };
-    let sig = if c.d == 1 && c.q >= 2 { format!("dict:{}:len1", kind) } else { format!("dict:{}:{}:{}", kind, dcl, qcl) };
+    let sig = if unsanitised { format!("dict:{}:clamped-lgwin", kind) } else { format!("dict:{}:{}:{}", kind, dcl, qcl) };
     rep.violation(&sig, &what, c.json());
     rep.sample(format!("{} {}", sig, c.corpus_line()));
 }
@@ -362,8 +363,16 @@ fn cases(thorough: bool, seed: u64) -> Vec<Case> {
             cs.push(Case { lgwin, q, d, seed: rng.below(251), magic: rng.chance(1, 2), kind: 4, api: rng.below(3) as u32, iseed: rng.next() >> 16 });
         }
     }
-    // unsanitised window values (outside the property's quantifier; counted, never a violation)
-    for &lgwin in &[4i32, 5, 8, 9] { for q in [5, 11] { cs.push(Case { lgwin, q, d: 600, seed: 0, magic: false, kind: 0, api: 0, iseed: rng.next() >> 16 }); } }
+    // out-of-range window values (clamped by SanitizeParams: accepted settings, same oracle)
+    for &lgwin in &[-3i32, 0, 3, 4, 5, 8, 9] {
+        for q in [0, 2, 5, 9, 11] { for d in [1usize, 16, 17, 240, 600, 1007, 1008, 1009, 3000] { cs.push(Case { lgwin, q, d, seed: rng.below(251), magic: rng.chance(1, 2), kind: rng.below(3) as u32, api: rng.below(3) as u32, iseed: rng.next() >> 16 }); } }
+    }
+    for &lgwin in &[3i32, 0] { for (q, d) in [(5, 400000usize), (2, 100000), (9, 200000)] { cs.push(Case { lgwin, q, d, seed: 3, magic: false, kind: 0, api: 0, iseed: rng.next() >> 16 }); } }
+    for &lgwin in &[25i32, 30] {
+        let w = 1usize << 24;
+        let ds: Vec<usize> = if thorough { vec![2, w - 17, w - 16, w - 15, w + 5, 70 << 20] } else { vec![2, *rng.pick(&[w - 16, w + 5])] };
+        for d in ds { let q = *rng.pick(&[2, 5, 9]); cs.push(Case { lgwin, q, d, seed: rng.below(251), magic: false, kind: 0, api: rng.below(3) as u32, iseed: rng.next() >> 16 }); }
+    }
     cs
 }
 
@@ -377,7 +386,7 @@ fn corr_lines(thorough: bool, seed: u64) -> Vec<(i32, i32, usize, u64)> {
             for lgb in [14usize, 16, 18] { let b = 1usize << lgb; for d in [b - 1, b, b + 1] { if q % 3 == 0 { v.push((lgwin, q, d, rng.below(251))); } } }
         }
     }
-    for lgwin in [0i32, 1, 3, 4, 5, 6, 8, 9, 25, 26, 30] { for q in [0, 2, 4, 9, 10, 11] { for d in [0usize, 1, 2, 15, 16, 17, 240, 241, 600, 1008, 1009, 3000] { v.push((lgwin, q, d, rng.below(251))); } } }
+    for lgwin in [-3i32, 0, 1, 3, 4, 5, 6, 8, 9, 25, 26, 30] { for q in [0, 2, 4, 9, 10, 11] { for d in [0usize, 1, 2, 15, 16, 17, 240, 241, 600, 1008, 1009, 3000] { v.push((lgwin, q, d, rng.below(251))); } } }
     for lgwin in [19i32, 20, 21, 22, 23, 24] {
         let w = 1usize << lgwin;
         for q in [0, 1, 2, 3, 4, 9, 11] {
